@@ -101,6 +101,11 @@ def one_trace(seed, steps):
         except Exception as e:   # noqa  -- logged as a failed call of another class; the spec will not accept it
             ev["ok"] = False
             ev["exc"] = type(e).__name__
-        ev["post"] = project_ds(ds, codec)
+        try:
+            ev["post"] = project_ds(ds, codec)
+        except Exception as e:  # noqa  -- an unprojectable Dataset ends the trace; the specification will reject the event
+            ev["post"] = dict(dims=["<unprojectable: %s>" % type(e).__name__], labs=[], vars=[])
+            events.append(ev)
+            break
         events.append(ev)
     return dict(tid=seed, events=events)
